@@ -223,6 +223,26 @@ def gen_history(rng, U, length, f1_fixed, lib_pool=None, mol_pool=None):
     return ops
 
 
+def scripted_histories(U):
+    """fixed histories that every run includes: evaluate an estimate, merge a revision of the library that changes its
+    groups (two libraries that share group names with different data, overwrite allowed), estimate the same molecule again
+    and evaluate at the same temperature — what was remembered while evaluating before the merge must not answer afterwards"""
+    out = []
+    for a, b, m in (('GuSolventGA2017Aq', 'GuSolventGA2017Vac', 'CC[Pt]'), ('GRWSurface2018', 'GRWAqueous2018', 'OC[Pt]'),
+                    ('GuSolventGA2017Vac', 'GuSolventGA2017Aq', 'C([Pt])C[Pt]')):
+        ops = [{'k': 'load', 'L': U.lib_ids[a], 'byPath': False}, {'k': 'load', 'L': U.lib_ids[b], 'byPath': False},
+               {'k': 'decompose', 'lib': 0, 'm': U.mol(m)},
+               {'k': 'estimate', 'lib': 0, 'from': 2, 'forMol': U.mol(m)}]
+        ops += [{'k': 'evaluate', 'est': 0, 'T': t, 'q': q, 'el': None} for t in range(len(TEMPS)) for q in range(len(QTYS))]
+        ops += [{'k': 'merge', 'dst': 0, 'src': 1, 'ow': True},
+                {'k': 'decompose', 'lib': 0, 'm': U.mol(m)},
+                {'k': 'estimate', 'lib': 0, 'from': len(ops) + 1, 'forMol': U.mol(m)}]
+        ops += [{'k': 'evaluate', 'est': 1, 'T': t, 'q': q, 'el': None} for t in range(len(TEMPS)) for q in range(len(QTYS))]
+        ops += [{'k': 'evaluate', 'est': 0, 'T': t, 'q': q, 'el': None} for t in range(len(TEMPS)) for q in range(len(QTYS))]
+        out.append(ops)
+    return out
+
+
 class ImplRun(object):
     """runs a history on the real objects in this process, recording canonical outputs and data digests.
 
@@ -747,11 +767,12 @@ def run(ctx):
         mol_pool = {n: rng.sample(MOLS[n][:-2], 3) + MOLS[n][-2:-1] + ([MOLS[n][-1]] if rng.random() < 0.5 else []) for n in LIBS}
     ctx.extra.setdefault('coverage', {})['libraries_in_this_run'] = lib_pool
     done = 0
+    scripted = scripted_histories(U)
     while done < n_hist and ctx.time_left() > 150:
         histories = []
         for _ in range(min(block, n_hist - done)):
             length = rng.choice([2, 3, 5, 8, 8, 12, 12, 20, 30, 40])
-            gen = gen_history(rng, U, length, f1_fixed, lib_pool, mol_pool)
+            gen = scripted.pop() if scripted else gen_history(rng, U, length, f1_fixed, lib_pool, mol_pool)
             import time
             t0 = time.time()
             impl = ImplRun(U)
